@@ -71,3 +71,8 @@ pub proof fn axiom_lines_bound(b: &crate::buffer::Buffer)
 {}
 
 global size_of usize == 8;
+
+pub assume_specification<Idx: Clone>[ <core::ops::Range<Idx> as Clone>::clone ](r: &core::ops::Range<Idx>) -> (res: core::ops::Range<Idx>)
+    ensures
+        cloned::<Idx>(r.start, res.start),
+        cloned::<Idx>(r.end, res.end);
